@@ -461,40 +461,52 @@ api_harness!(push_child_spans_handle, stub_ready, {
     std::mem::forget(s);
 });
 
-api_harness!(probe_q1, stub_ready, {
-    let mut i1 = any_item(); i1.is_sampled = true;
+
+// C10 / C11 / C01: the scope of a local parent -- context inside, restored after, one submission at its end
+api_harness!(local_parent_guard_scope, stub_ready, {
+    let i1 = any_item();
+    kani::assume(i1.is_sampled);
     let s = Span::new(vec![i1], "s", None);
+    let sid = id_of(&s);
+    kani::assert(SpanContext::current_local_parent().is_none(), "no_local_parent_before_scope: None before set_local_parent");
     let g = s.set_local_parent();
+    let c1 = SpanContext::current_local_parent();
+    kani::assert(c1.is_some(), "local_parent_is_the_span_set: Some inside the scope");
+    let c1 = c1.unwrap();
+    kani::assert(c1.trace_id == i1.trace_id && c1.span_id == sid && c1.sampled, "local_parent_is_the_span_set: trace id, the span's id, decision");
+    kani::assert(nlog() == 0, "local_scope_sends_nothing_before_it_ends: no command yet");
     drop(g);
-    kani::assert(nlog() == 1, "q1");
+    kani::assert(SpanContext::current_local_parent().is_none(), "scope_end_restores_no_local_parent: None after the guard is dropped");
+    kani::assert(nlog() == 1, "scope_end_submits_local_spans_once: exactly one command when the scope ends");
+    let b = rec(0);
+    kani::assert(b.kind == 4 && !b.forced && b.set_kind == 2, "scope_end_submits_local_spans_once: the set of local spans of the scope");
+    kani::assert(b.token_len == 1 && b.tok[0].parent_id == sid && b.tok[0].trace_id == i1.trace_id && b.tok[0].collect_id == i1.collect_id && !b.tok[0].is_root,
+        "local_spans_are_parented_to_the_scope_span: token names the span that was set as local parent");
     std::mem::forget(s);
 });
-api_harness!(probe_q2, stub_ready, {
-    let mut i1 = any_item(); i1.is_sampled = true;
+
+// C17: a captured set pushed under a span is submitted shared, under that span; an empty set is not
+// submitted.  The set is built directly (recording it through LocalSpan costs CBMC > 30 GB).
+api_harness!(push_child_spans_direct, stub_ready, {
+    use crate::local::local_collector::{LocalSpans, LocalSpansInner};
+    use crate::local::raw_span::RawSpan;
+    let i1 = any_item();
     let s = Span::new(vec![i1], "s", None);
-    let g = s.set_local_parent();
-    let l = LocalSpan::enter_with_local_parent("l");
-    drop(l);
-    std::mem::forget(g);
+    let sid = id_of(&s);
+    let empty = LocalSpans { inner: std::sync::Arc::new(LocalSpansInner { spans: Vec::new(), end_time: stub_now() }) };
+    s.push_child_spans(empty);
+    kani::assert(nlog() == 0, "empty_set_is_not_submitted: nothing sent for an empty set");
+    let raw = RawSpan::begin_with(SpanId(kani::any()), SpanId(0), stub_now(), "l", RawKind::Span);
+    let one = LocalSpans { inner: std::sync::Arc::new(LocalSpansInner { spans: vec![raw], end_time: stub_now() }) };
+    s.push_child_spans(one);
+    if i1.is_sampled {
+        kani::assert(nlog() == 1, "pushed_set_is_submitted_once: one command");
+        let b = rec(0);
+        kani::assert(b.kind == 4 && !b.forced && b.set_kind == 3 && b.n_local == 1, "pushed_set_is_submitted_once: the shared set");
+        kani::assert(b.token_len == 1 && b.tok[0].parent_id == sid && b.tok[0].trace_id == i1.trace_id && b.tok[0].collect_id == i1.collect_id,
+            "pushed_set_is_parented_to_the_target_span: token names the target span");
+    } else {
+        kani::assert(nlog() == 0, "unsampled_target_receives_nothing: nothing sent under an unsampled span");
+    }
     std::mem::forget(s);
-});
-api_harness!(probe_q3, stub_ready, {
-    let col = LocalCollector::start();
-    let l = LocalSpan::enter_with_local_parent("l");
-    std::mem::forget(l);
-    std::mem::forget(col);
-});
-api_harness!(probe_q4, stub_ready, {
-    let col = LocalCollector::start();
-    let l = LocalSpan::enter_with_local_parent("l");
-    drop(l);
-    std::mem::forget(col);
-});
-api_harness!(probe_q5, stub_ready, {
-    let mut stack = crate::local::local_span_stack::LocalSpanStack::with_capacity(4);
-    let h = stack.register_span_line(None).unwrap();
-    let s = stack.enter_span("x").unwrap();
-    stack.exit_span(s);
-    std::mem::forget(stack);
-    std::mem::forget(h);
 });
